@@ -172,6 +172,7 @@ def _programs_part(g, case, res):
             continue
         res["nontrivial"] += 1
         spy = Spy()
+        ids_before = [id(t) for t in terms]
         ret = pf.solvePDE(phi, terms, externalsolver=spy)
 
         def add(kind, msg):
@@ -182,6 +183,8 @@ def _programs_part(g, case, res):
                           "detail": {"grid": U.spec_id(g.spec), "program": kinds, "setup": setup}})
         if ret is not phi:
             add("returns_other_object", "solvePDE did not return the variable it was given")
+        if [id(t) for t in terms] != ids_before:
+            add("term_list_modified", "solvePDE changed the term list it was given (length %d -> %d)" % (len(ids_before), len(terms)))
         full = np.asarray(phi._value, dtype=float).ravel()
         scale = max(1.0, float(np.max(np.abs(full))))
         # (vii) spy: identical system, answer stored
